@@ -109,6 +109,32 @@ def perturbations(desc, tier):
                         yield "kind-changed", (y, attrs, text, children)
 
 
+def norm(desc):
+    """order-insensitive, string-valued form of a desc: two descs with the same norm may denote structurally
+    equal messages (0 vs "0", attribute order), so a pair is only demanded to be unequal when the norms differ"""
+    tag, attrs, text, children = desc
+    return (
+        tag,
+        tuple(sorted((n, str(v)) for n, v in attrs)),
+        None if text is None else str(text),
+        tuple((ct, tuple(sorted((n, str(v)) for n, v in ca)), None if ctext is None else str(ctext)) for ct, ca, ctext in children),
+    )
+
+
+def swaps(desc):
+    """one edit that exchanges the values of two slots of the same kind (invisible to any comparison that looks at the
+    multiset of values instead of at who carries which value)"""
+    sl = list(G.slots(desc))
+    for (p1, k1), (p2, k2) in itertools.combinations(sl, 2):
+        if k1 != k2:
+            continue
+        v1, v2 = G.get_slot(desc, p1), G.get_slot(desc, p2)
+        if v1 == v2 or v1 is None or v2 is None:
+            continue
+        where = "attrs" if p1[0] == p2[0] == "a" else ("children" if p1[0] != "a" and p2[0] != "a" else "attr-child")
+        yield "values-swapped:" + where, G.with_slot(G.with_slot(desc, p1, v2), p2, v1)
+
+
 def compare(a, b):
     """returns set of observed relation failures for objects that must be unequal"""
     bad = []
@@ -183,6 +209,35 @@ def run_shard(shard):
                     "%s: %r vs %r" % (",".join(bad), desc, pd),
                     {"kind": "pair", "a": desc, "b": pd, "label": label},
                 )
+        if tier == "thorough":
+            # two-point perturbations and value exchanges: edits that cancel in an order-, position- or
+            # multiset-insensitive comparison.  Demanded unequal only when the normal forms differ.
+            nd = norm(desc)
+            seen2 = set()
+            two = []
+            for label, pd in swaps(desc):
+                two.append((label, pd))
+            if len(desc[3]) <= 2:
+                for label1, pd1 in perturbations(desc, "quick"):
+                    for label2, pd2 in perturbations(pd1, "quick"):
+                        two.append(("two-point:%s+%s" % (label1.split("@")[0].split(":")[0], label2.split("@")[0].split(":")[0]), pd2))
+            for label, pd in two:
+                n2 = norm(pd)
+                if n2 == nd or n2 in seen2:
+                    continue
+                seen2.add(n2)
+                try:
+                    b = lib.build(pd)
+                except Exception:
+                    C["unbuildable"] = C.get("unbuildable", 0) + 1
+                    continue
+                res["evaluations"] += 1
+                res["pairs_unequal"] += 1
+                kind2 = label.split(":")[0]
+                C[kind2] = C.get(kind2, 0) + 1
+                bad = compare(a, b)
+                if bad:
+                    viol("perturbed-compares-equal", label, "%s: %r vs %r" % (",".join(bad), desc, pd), {"kind": "pair", "a": desc, "b": pd, "label": label})
         if len(res["samples"]) < 1 and desc[3]:
             res["samples"].append({"desc": desc, "perturbation": next(iter(perturbations(desc, tier)))})
     return res
